@@ -76,6 +76,7 @@ def runHistory (be : Backend) (b : Build) (script : String) (convGroups : List (
   let mut groups := convGroups
   let mut dead := false
   let mut dead2 := false
+  let mut failNext := false      -- idnkit stand-in: the next `idn_resconf_create` fails (set by `y`, consumed by the call)
   for op0 in script.splitOn ";" do
     let two := op0.get 0 == '2'
     let op := if two then (op0.drop 1).toString else op0
@@ -86,6 +87,10 @@ def runHistory (be : Backend) (b : Build) (script : String) (convGroups : List (
     let arg := (op.drop 1).toString
     if c == 'x' then
       outs := outs.push "x"
+      continue
+    if c == 'y' then
+      if be == .idnkit then failNext := true
+      outs := outs.push "y"
       continue
     if c == 'v' then
       -- the record the object holds now (`eav->result`), as the caller can read it between calls
@@ -99,7 +104,7 @@ def runHistory (be : Backend) (b : Build) (script : String) (convGroups : List (
       else if c == 'r' then some (.setRfc (rfcOf arg))
       else if c == 't' then some (.setTld (arg == "1"))
       else if c == 'k' then some (.setMask (arg.toNat?.getD 0))
-      else if c == 's' then some .setup
+      else if c == 's' then (if failNext then some (.setupFail 12) else some .setup)
       else if c == 'm' then some .errstr
       else if c == 'f' then some .free
       else if c == 'e' then
@@ -107,6 +112,11 @@ def runHistory (be : Backend) (b : Build) (script : String) (convGroups : List (
         some (.isEmail (unhex arg) (g.head?.getD noConv))
       else none
     if c == 'e' then groups := groups.drop 1
+    if c == 's' && failNext then
+      -- the creation is attempted (and the injected failure consumed) only by the 6531 arm of an object that has no context yet
+      match (if two then st2 else st).obj with
+      | some e => if e.rfc == 3 && !e.initialized then failNext := false
+      | none => pure ()
     match mop with
     | none => outs := outs.push "?"
     | some o =>
